@@ -45,7 +45,7 @@ def prog_str(prog):
 def streams_py(h):
   """The fixed input streams, recovered from the single-select-free structure: same constants as the spec."""
   def rec(a, b, x):
-    return {'a': a, 'b': b, 'n': {'x': x}}
+    return {'a': a, 'b': b, 'n': {'x': x}, 't': (a,)}
   r1, r2, r3, r4 = rec(1, 2, 5), rec(4, 3, 6), rec(3, 3, 1), rec(6, 1, 2)
   return [[], [r1], [r1, r2], [r2, r1, r3, r4]]
 
